@@ -29,6 +29,7 @@ CONSTANTS
   Focus = TRUE
   Record = TRUE
   ReadOnly = FALSE
+  AckSplit = TRUE
   RM = FALSE
   Slots = 1
   RmUuids = {1, 2}
